@@ -36,6 +36,7 @@ MIN_REACH = {
     "calls_logged": {"quick": 3000, "thorough": 30000},
     "second_runs_on_same_runner": {"quick": 15, "thorough": 300},
     "varying_coordinate_labels_selected": {"quick": 300, "thorough": 5000},
+    "positional_cases_named_by_stored_fn_args": {"quick": 10, "thorough": 200},
 }
 TIME_BUDGET = {"quick": 400, "thorough": 3400}
 
@@ -316,6 +317,7 @@ def run_case(ctx, case):
         pool = concurrent.futures.ThreadPoolExecutor(3)
         opts["executor"] = pool
 
+    fn_args = None
     if use_cases:
         if case["case_spelling"] == "tuple":
             cases_arg = [tuple(c[a] for a in names) for c in cs]
@@ -349,10 +351,17 @@ def run_case(ctx, case):
             elif entry == "case_to_df":
                 out = xyzpy.case_runner_to_df(fn, fn_args, cases_arg, var_names, combos=combos_arg, **descr, **opts)
             else:
+                # the names of positional (tuple-form) cases can be STORED on the Runner / given to label() once, instead of
+                # being repeated at every call
+                stored = fn_args is not None and "cases" in entry and rs % 2 == 0
+                d2 = dict(descr, fn_args=fn_args) if stored else descr
                 if entry.startswith("label"):
-                    runner = xyzpy.label(var_names, **descr)(fn)
+                    runner = xyzpy.label(var_names, **d2)(fn)
                 else:
-                    runner = xyzpy.Runner(fn, var_names, **descr)
+                    runner = xyzpy.Runner(fn, var_names, **d2)
+                if stored:
+                    fn_args = None
+                    ctx.count("positional_cases_named_by_stored_fn_args")
                 kw = dict(opts)
                 if run_constants:
                     kw["constants"] = run_constants
